@@ -152,12 +152,8 @@ func VerifC19_TrackMerge() {
 	verifAssert(found >= 0, "the requested pattern has a line of its own, spelled by the escaping rules")
 	hasLockable := strings.HasSuffix(lines[found], " lockable")
 	verifAssert(strings.TrimSuffix(lines[found], " lockable") == want, "with the LFS attributes")
-	if trackLockableFlag {
-		verifAssert(hasLockable, "--lockable makes it lockable")
-	}
-	if trackNotLockableFlag {
-		verifAssert(!hasLockable, "--not-lockable makes it not lockable")
-	}
+	// (the lockable flag is C16's business, not C19's: nothing is demanded of it here)
+	_ = hasLockable
 
 	// 2. every other line is kept, in order, and a line for the pattern stays in place
 	k2 := 0
